@@ -4,6 +4,7 @@ use crate::common::*;
 use crate::w_epochs::*;
 use crate::world::*;
 use cosmwasm_std::{coin, Addr};
+use cw_multi_test::Executor;
 use serde_json::{json, Value};
 use white_whale_std::fee_distributor as fd;
 
@@ -18,6 +19,7 @@ pub enum Ev {
     NewEpoch { sender: usize, fee: u128, collector_ok: bool },
     Claim { who: usize },
     SetGrace { admin: bool, g: u64 },
+    Stray { amount: u128 },                             // a plain bank transfer of the distribution asset to the DISTRIBUTOR (belongs to no epoch)
 }
 fn ev_json(t: u64, e: &Ev) -> Value {
     match e {
@@ -26,6 +28,7 @@ fn ev_json(t: u64, e: &Ev) -> Value {
         Ev::NewEpoch { sender, fee, collector_ok } => json!({"t": t.to_string(), "op": "new_epoch", "sender": sender, "fee": fee.to_string(), "collector_ok": collector_ok}),
         Ev::Claim { who } => json!({"t": t.to_string(), "op": "claim", "who": who}),
         Ev::SetGrace { admin, g } => json!({"t": t.to_string(), "op": "set_grace", "admin": admin, "g": g}),
+        Ev::Stray { amount } => json!({"t": t.to_string(), "op": "transfer_to_distributor", "amount": amount.to_string()}),
     }
 }
 fn p128(v: &Value) -> u128 { v.as_str().and_then(|s| s.parse().ok()).unwrap_or(0) }
@@ -38,6 +41,7 @@ fn ev_from_json(v: &Value) -> Option<(u64, Ev)> {
         "new_epoch" => Ev::NewEpoch { sender: us("sender"), fee: p128(&v["fee"]), collector_ok: v["collector_ok"].as_bool().unwrap_or(true) },
         "claim" => Ev::Claim { who: us("who") },
         "set_grace" => Ev::SetGrace { admin: v["admin"].as_bool().unwrap_or(true), g: v["g"].as_u64().unwrap_or(1) },
+        "transfer_to_distributor" => Ev::Stray { amount: p128(&v["amount"]) },
         _ => return None,
     }))
 }
@@ -104,12 +108,13 @@ pub struct Exec {
     pub paid: std::collections::BTreeSet<(usize, u64)>,
     pub n_epochs: u64, pub n_claims_paid: u64, pub n_rollover_nonzero: u64, pub grace_changes: u64,
     grace0: u64,
+    pub strays: u128,
 }
 impl Exec {
     pub fn new(grace: u64, growth: u128) -> Exec {
         let cfg = EpochCfg { grace_period: grace, growth_rate: growth, unbonding_period: 1_000, ..Default::default() };
         Exec { w: deploy_epoch_world(cfg).expect("deploy"), terms: vec![], obs: vec![], history: vec![], paid: Default::default(),
-               n_epochs: 0, n_claims_paid: 0, n_rollover_nonzero: 0, grace_changes: 0, grace0: grace }
+               n_epochs: 0, n_claims_paid: 0, n_rollover_nonzero: 0, grace_changes: 0, grace0: grace, strays: 0 }
     }
     pub fn replay_json(&self) -> Value {
         json!({"kind": "distributor_history", "grace_period": self.grace0, "growth_rate": self.w.cfg.growth_rate.to_string(), "users": U, "events": self.history})
@@ -164,6 +169,11 @@ impl Exec {
                 let r = run_catch(|| self.w.set_grace(if *admin { "owner" } else { "alice" }, *g).map(|_| ()), classify);
                 (format!("DSetGrace {} {}", coqbool(*admin), g), r, 0)
             }
+            Ev::Stray { amount } => {
+                let (d, a) = (self.w.distributor.clone(), *amount);
+                let r = run_catch(|| self.w.app.send_tokens(Addr::unchecked("donor"), d.clone(), &[coin(a, DIST)]).map(|_| ()), |_e| E_OTHER);
+                (format!("DStray {}", amount), r, 0)
+            }
             _ => unreachable!(),
         };
         let after = snap(&self.w);
@@ -211,11 +221,21 @@ impl Exec {
                     if after.cursors[*who] <= old_cursor { out.monitor_fail("C09", "an accepted claim did not advance the claim cursor", replay.clone()); }
                     if payout > 0 { self.n_claims_paid += 1; }
                 }
+                Ev::Stray { amount } => {
+                    self.strays += *amount;
+                    if after.bal != before.bal + *amount || after.epochs != before.epochs || after.cursors != before.cursors || after.grace != before.grace {
+                        out.monitor_fail("C09", "a plain transfer to the distributor changed more than its balance", replay.clone());
+                    }
+                }
                 Ev::SetGrace { .. } => { if after.grace < before.grace { out.monitor_fail("C09", "the grace period decreased", replay.clone()); } if after.grace != before.grace { self.grace_changes += 1; } }
                 _ => {}
             }
         }
-        let kind = match e { Ev::NewEpoch { .. } => "new_epoch", Ev::Claim { .. } => "claim", _ => "set_grace" };
+        // the balance is EXACTLY the available ledgers plus what plain transfers added (Coq: C09_distributor_solvent)
+        { let sum_av: u128 = after.epochs.iter().map(|e| nz(e.3)).sum();
+          out.monitor_evals += 1;
+          if after.bal != sum_av + self.strays { out.monitor_fail("C09", &format!("the distributor holds {} but the available amounts sum to {} and plain transfers added {}", after.bal, sum_av, self.strays), replay.clone()); } }
+        let kind = match e { Ev::NewEpoch { .. } => "new_epoch", Ev::Claim { .. } => "claim", Ev::Stray { .. } => "env:transfer_to_distributor", _ => "set_grace" };
         out.count(&format!("{}:{}", kind, match &r { Outcome::Ok(_) => if payout > 0 { "ok_paid" } else { "ok" }, Outcome::Err(_) => "err", Outcome::Panic(_) => "panic" }));
         self.terms.push(format!("({}, {})", t, term));
         let mut o = obs(&r, |_| vec![]);
@@ -255,6 +275,8 @@ fn corpus(out: &mut Out) {
             (t0 + d + s, Ev::Claim { who: 0 }),
             (t0 + 2 * d, Ev::NewEpoch { sender: 0, fee: 0, collector_ok: true }),
             (t0 + 2 * d + s, Ev::Claim { who: 1 }),
+            (t0 + 2 * d + s, Ev::Stray { amount: 1_000 }),
+            (t0 + 2 * d + s, Ev::Stray { amount: 0 }),
             (t0 + 3 * d, Ev::NewEpoch { sender: 0, fee: 5, collector_ok: true }),
             (t0 + 3 * d + s, Ev::SetGrace { admin: true, g: 4 }),
             (t0 + 3 * d + s, Ev::SetGrace { admin: true, g: 3 }),
@@ -296,7 +318,7 @@ fn corpus(out: &mut Out) {
     }
 }
 
-fn gen_history(out: &mut Out, rng: &mut Rng) {
+fn gen_history(out: &mut Out, rng: &mut Rng, transfers: bool) {
     let grace = 1 + rng.below(5);
     let growth: u128 = *rng.pick(&[0u128, 1, DEC_ONE / 2, DEC_ONE, DEC_ONE]);
     let mut x = Exec::new(grace, growth);
@@ -311,6 +333,11 @@ fn gen_history(out: &mut Out, rng: &mut Rng) {
     let mut cur_grace = grace;
     while made < target_epochs && steps < 80 {
         steps += 1;
+        if transfers && rng.chance(1, 6) {
+            t += 1;
+            x.exec(out, t, &Ev::Stray { amount: match rng.below(4) { 0 => 0, 1 => 1, 2 => 1 + rng.below128(1_000_000), _ => magnitude(rng, 60) } });
+            continue;
+        }
         match rng.below(12) {
             0..=3 => {
                 // the next epoch: usually right at / after the boundary, sometimes early
@@ -341,6 +368,7 @@ fn gen_history(out: &mut Out, rng: &mut Rng) {
     // everyone tries to claim at the end; then twice more epochs to let the last ones expire
     for u in 0..3 { t += 1; x.exec(out, t, &Ev::Claim { who: u }); }
     out.count(&format!("history:grace_{}", grace));
+    if transfers { out.count("history:with_plain_transfers_to_the_distributor"); }
     x.emit(out);
 }
 
@@ -381,7 +409,10 @@ pub fn run(args: &Args) {
     corpus(&mut out);
     migration_probe(&mut out);
     distribution_asset_change_probe(&mut out);
-    for _ in 0..args.n { gen_history(&mut out, &mut rng); }
+    for _ in 0..args.n { gen_history(&mut out, &mut rng, false); }
+    // histories in which anybody also sends the distribution asset straight to the distributor (own generator state: the histories above stay what they were)
+    let mut rng2 = Rng::new(args.seed ^ 0x5742_4159);
+    for _ in 0..(args.n / 4).max(10) { gen_history(&mut out, &mut rng2, true); }
     out.finish();
 }
 
